@@ -143,6 +143,9 @@ fn index_list<Data: GarnishData>(
 ) -> Result<Option<Data::Size>, RuntimeError<Data::Error>> {
     if index < Data::Number::zero() {
         Ok(None)
+    } else if index >= <Data as GarnishData>::DataFactory::size_to_number(this.get_list_len(list.clone())?) {
+        // out of range is "no item", not an error, for every data implementation
+        Ok(None)
     } else {
         match this.get_list_item(list, index)? {
             Some(addr) => Ok(Some(addr)),
